@@ -79,6 +79,11 @@ def Cfg.toRec : Cfg → RecArr
     { names := ["spotsize", "speed", "scantime"], dim := none, recs := [[.num spotsize, .num speed, .num scantime]] }
   | .spot sx sy => { names := ["spotsize"], dim := some 2, recs := [[.num sx], [.num sy]] }
 
+/-- the dtype of each field of the array form (`np.float64`, little endian) -/
+def Cfg.arrayDtypes : Cfg → List String
+  | .raster .. => ["<f8", "<f8", "<f8"]
+  | .spot .. => ["<f8"]
+
 /-- `array["spotsize"][i]` of a 1-d array -/
 def spotElem (col : List FVal) (i : Nat) : Except ArrErr Rat :=
   match col[i]? with
@@ -141,6 +146,202 @@ def tieMargin (q : Rat) : Rat :=
   let x := q * 1000000
   let r := x - (x.floor : Rat)
   if r < 1 / 2 then 1 / 2 - r else r - 1 / 2
+
+/-! ## the same pipeline in float64 (`fl` = nearest binary64, `PewModel/Srr.lean`)
+
+What CPython evaluates: `get_pixel_width` is one float product (raster) or an attribute (spot); `data_extent` is one
+product `px * shape[1]` per bound (the integer converts exactly); `Laser.get` divides each bound by the pixel size (one
+float division), then `int(round(q, 6))`.  Inputs are the exact values of the floats. -/
+
+/-- `get_pixel_width()` as evaluated in float64 -/
+def Cfg.pixelWidthF : Cfg → Rat
+  | .raster _ speed scantime => fl (speed * scantime)
+  | .spot sx _ => sx
+
+/-- `get_pixel_height()` (no arithmetic) -/
+def Cfg.pixelHeightF : Cfg → Rat
+  | .raster spotsize _ _ => spotsize
+  | .spot _ sy => sy
+
+/-- `data_extent(shape)` in float64 -/
+def Cfg.dataExtentF (c : Cfg) (shape : List Nat) : Ext :=
+  { x0 := 0, x1 := fl (c.pixelWidthF * ((shape.getD 1 0 : Nat) : Rat)),
+    y0 := 0, y1 := fl (c.pixelHeightF * ((shape.getD 0 0 : Nat) : Rat)) }
+
+/-- `Laser.extent` in float64 -/
+def laserExtentF {α : Type} (c : Cfg) (data : Arr2 α) : Ext := c.dataExtentF [data.rows, data.cols]
+
+/-- `Laser.get(extent=e)` in float64: each bound divided by the float pixel size (one rounding), then `int(round(q, 6))` -/
+def getF {α : Type} (c : Cfg) (data : Arr2 α) (e : Ext) : Arr2 α :=
+  getQ data (fl (e.x0 / c.pixelWidthF)) (fl (e.x1 / c.pixelWidthF)) (fl (e.y0 / c.pixelHeightF)) (fl (e.y1 / c.pixelHeightF))
+
+/-- all parameters positive (the property's quantifier) -/
+def Cfg.Positive : Cfg → Prop
+  | .raster spotsize speed scantime => 0 < spotsize ∧ 0 < speed ∧ 0 < scantime
+  | .spot sx sy => 0 < sx ∧ 0 < sy
+
+/-- a float bound `b` counts as "the pixel boundary `k`" of pixel size `p` when it is within `k·p / 2⁵⁰` of `k·p`
+(the caller's product `k * p`, the correctly rounded exact product, either of them one ulp up or down, and the extent
+pewlib reports itself all are; see `PewTheorems/C10.lean`) -/
+def NearBoundary (b p : Rat) (k : Nat) : Prop :=
+  (if b - (k : Rat) * p < 0 then (k : Rat) * p - b else b - (k : Rat) * p) ≤ (k : Rat) * p / 1125899906842624
+
+instance (b p : Rat) (k : Nat) : Decidable (NearBoundary b p k) := by unfold NearBoundary; exact inferInstance
+
+/-- the variant of the seeded change C10-c1: `int(round(q, 12))` -/
+def round12 (q : Rat) : Rat := (roundHalfEven (q * 1000000000000) : Rat) / 1000000000000
+def toIndex12 (q : Rat) : Int := trunc (round12 q)
+
+/-! ## histories: configuration objects, and lasers that hold (and may share) them
+
+Python objects: a `Config` / `SpotConfig` object is a store of attributes (`SpotConfig.__init__` also sets
+`speed = scantime = 0.0`); a `Laser` holds a reference to one configuration object and an array.  Operations: create a
+configuration, copy one (`copy.copy`, what `Laser.__init__` does with its argument), create a laser, `laser.config = obj`
+(a shared reference), `obj.attr = v` (seen by every laser that holds `obj`), `laser.data = array`.
+Mechanism: `Heap.run`, a left fold of `Heap.step`.  Specification: `viewSpec`, last write wins, read off the history
+from its end without building any state. -/
+
+inductive Attr | spotsize | speed | scantime | spotsizeY
+  deriving DecidableEq, Repr
+
+structure CfgObj where
+  kind : Kind
+  spotsize : Rat
+  speed : Rat
+  scantime : Rat
+  spotsizeY : Rat
+  deriving DecidableEq, Repr
+
+def CfgObj.getAttr (o : CfgObj) : Attr → Rat
+  | .spotsize => o.spotsize
+  | .speed => o.speed
+  | .scantime => o.scantime
+  | .spotsizeY => o.spotsizeY
+
+def CfgObj.setAttr (o : CfgObj) (a : Attr) (v : Rat) : CfgObj :=
+  match a with
+  | .spotsize => { o with spotsize := v }
+  | .speed => { o with speed := v }
+  | .scantime => { o with scantime := v }
+  | .spotsizeY => { o with spotsizeY := v }
+
+/-- the configuration an object stands for: which attributes the getters of its class read -/
+def cfgOf (k : Kind) (spotsize speed scantime spotsizeY : Rat) : Cfg :=
+  match k with
+  | .raster => .raster spotsize speed scantime
+  | .spot => .spot spotsize spotsizeY
+
+def CfgObj.toCfg (o : CfgObj) : Cfg := cfgOf o.kind o.spotsize o.speed o.scantime o.spotsizeY
+
+/-- the object a constructor call makes -/
+def CfgObj.ofCfg : Cfg → CfgObj
+  | .raster spotsize speed scantime => { kind := .raster, spotsize := spotsize, speed := speed, scantime := scantime, spotsizeY := 0 }
+  | .spot sx sy => { kind := .spot, spotsize := sx, speed := 0, scantime := 0, spotsizeY := sy }
+
+structure LaserObj where
+  cfg : Nat
+  rows : Nat
+  cols : Nat
+  deriving DecidableEq, Repr
+
+structure Heap where
+  cfgs : List CfgObj
+  lasers : List LaserObj
+
+inductive HOp
+  | newCfg (o : CfgObj)                        -- object number `cfgs.length`
+  | copyCfg (src : Nat)                        -- `copy.copy(cfgs[src])`: a new object with the same attributes
+  | newLaser (cfg rows cols : Nat)             -- laser number `lasers.length`, holding object `cfg`
+  | setCfg (laser cfg : Nat)                   -- `laser.config = cfgs[cfg]`
+  | setAttr (cfg : Nat) (a : Attr) (v : Rat)   -- `cfgs[cfg].a = v`
+  | setData (laser rows cols : Nat)            -- `laser.data = array of that shape`
+
+def Heap.step (h : Heap) : HOp → Heap
+  | .newCfg o => { h with cfgs := h.cfgs ++ [o] }
+  | .copyCfg src =>
+    match h.cfgs[src]? with
+    | some o => { h with cfgs := h.cfgs ++ [o] }
+    | none => h
+  | .newLaser cfg rows cols => { h with lasers := h.lasers ++ [{ cfg := cfg, rows := rows, cols := cols }] }
+  | .setCfg laser cfg => { h with lasers := h.lasers.modify laser (fun l => { l with cfg := cfg }) }
+  | .setAttr cfg a v => { h with cfgs := h.cfgs.modify cfg (fun o => o.setAttr a v) }
+  | .setData laser rows cols => { h with lasers := h.lasers.modify laser (fun l => { l with rows := rows, cols := cols }) }
+
+def Heap.run (ops : List HOp) : Heap := ops.foldl Heap.step { cfgs := [], lasers := [] }
+
+/-- what a laser shows: the configuration its object stands for now, and its shape -/
+def Heap.view (h : Heap) (laser : Nat) : Option (Cfg × Nat × Nat) :=
+  match h.lasers[laser]? with
+  | some l =>
+    match h.cfgs[l.cfg]? with
+    | some o => some (o.toCfg, l.rows, l.cols)
+    | none => none
+  | none => none
+
+/-- `Laser.extent` of laser number `laser` -/
+def Heap.extent (h : Heap) (laser : Nat) : Option Ext :=
+  (h.view laser).map (fun v => v.1.dataExtent [v.2.1, v.2.2])
+
+/-! ### the specification: read the history backwards (`rev` = newest operation first) -/
+
+/-- the number of configuration objects a history made (`copy.copy` of an object that does not exist makes none) -/
+def countCfgs : List HOp → Nat
+  | [] => 0
+  | .newCfg _ :: earlier => countCfgs earlier + 1
+  | .copyCfg src :: earlier => if src < countCfgs earlier then countCfgs earlier + 1 else countCfgs earlier
+  | _ :: earlier => countCfgs earlier
+
+def countLasers : List HOp → Nat
+  | [] => 0
+  | .newLaser .. :: earlier => countLasers earlier + 1
+  | _ :: earlier => countLasers earlier
+
+/-- attribute `a` of object `id`: the value of the newest assignment to it, else what it was made with
+(for a copy: what the original held at that moment) -/
+def attrSpec : List HOp → Nat → Attr → Option Rat
+  | [], _, _ => none
+  | .setAttr id' a' v :: earlier, id, a =>
+    if id' = id ∧ a' = a ∧ id < countCfgs earlier then some v else attrSpec earlier id a
+  | .newCfg o :: earlier, id, a => if id = countCfgs earlier then some (o.getAttr a) else attrSpec earlier id a
+  | .copyCfg src :: earlier, id, a =>
+    if id = countCfgs earlier ∧ src < countCfgs earlier then attrSpec earlier src a else attrSpec earlier id a
+  | _ :: earlier, id, a => attrSpec earlier id a
+
+/-- the class of object `id` never changes -/
+def kindSpec : List HOp → Nat → Option Kind
+  | [], _ => none
+  | .newCfg o :: earlier, id => if id = countCfgs earlier then some o.kind else kindSpec earlier id
+  | .copyCfg src :: earlier, id =>
+    if id = countCfgs earlier ∧ src < countCfgs earlier then kindSpec earlier src else kindSpec earlier id
+  | _ :: earlier, id => kindSpec earlier id
+
+/-- the object laser `l` holds: the newest `laser.config = …`, else the one it was made with -/
+def heldSpec : List HOp → Nat → Option Nat
+  | [], _ => none
+  | .setCfg l' cfg :: earlier, l => if l' = l ∧ l < countLasers earlier then some cfg else heldSpec earlier l
+  | .newLaser cfg _ _ :: earlier, l => if l = countLasers earlier then some cfg else heldSpec earlier l
+  | _ :: earlier, l => heldSpec earlier l
+
+/-- the shape of laser `l`: the newest `laser.data = …`, else the one it was made with -/
+def shapeSpec : List HOp → Nat → Option (Nat × Nat)
+  | [], _ => none
+  | .setData l' rows cols :: earlier, l => if l' = l ∧ l < countLasers earlier then some (rows, cols) else shapeSpec earlier l
+  | .newLaser _ rows cols :: earlier, l => if l = countLasers earlier then some (rows, cols) else shapeSpec earlier l
+  | _ :: earlier, l => shapeSpec earlier l
+
+/-- what laser `l` must show after the history `rev` (newest first) -/
+def viewSpec (rev : List HOp) (l : Nat) : Option (Cfg × Nat × Nat) :=
+  match heldSpec rev l, shapeSpec rev l with
+  | some id, some (rows, cols) =>
+    match kindSpec rev id, attrSpec rev id .spotsize, attrSpec rev id .speed, attrSpec rev id .scantime, attrSpec rev id .spotsizeY with
+    | some k, some s, some v, some t, some y => some (cfgOf k s v t y, rows, cols)
+    | _, _, _, _, _ => none
+  | _, _ => none
+
+/-- the extent laser `l` must report after the history: `(0, columns × pixel width, 0, rows × pixel height)` of the
+configuration and shape that are current then -/
+def extentHistSpec (rev : List HOp) (l : Nat) : Option Ext :=
+  (viewSpec rev l).map (fun v => v.1.specExtent v.2.1 v.2.2)
 
 /-! ## SRR (`SRRConfig`, `SRRLaser.extent`) -/
 open Pew.Srr
